@@ -5,7 +5,7 @@ From Coq Require Import QArith Qcanon Ring.
 From VF Require Import Base.RingOps.
 
 Record K8 := mk8 { c0 : Qc; c1 : Qc; c2 : Qc; c3 : Qc }.   (* c0 + c1 z + c2 z^2 + c3 z^3, z^4 = -1 *)
-Open Scope Qc_scope.
+Local Open Scope Qc_scope.
 Definition k8_add (x y : K8) := mk8 (c0 x + c0 y) (c1 x + c1 y) (c2 x + c2 y) (c3 x + c3 y).
 Definition k8_opp (x : K8) := mk8 (- c0 x) (- c1 x) (- c2 x) (- c3 x).
 Definition k8_sub (x y : K8) := mk8 (c0 x - c0 y) (c1 x - c1 y) (c2 x - c2 y) (c3 x - c3 y).
